@@ -44,7 +44,12 @@ func genSeekOffset(t *rapid.T, fc *fileCase) int64 {
 func TestC04_P_ReadSeekModel(t *testing.T) {
 	ev := newEvid(t, c04Rule)
 	rapid.Check(t, func(t *rapid.T) {
-		fc := genFileDAG(t, 0, 200)
+		var fc *fileCase
+		if rapid.IntRange(0, 5).Draw(t, "handmade") == 0 {
+			fc = genHandFileDAG(t) // chunks may be empty: several chunk boundaries fall on one offset
+		} else {
+			fc = genFileDAG(t, 0, 200)
+		}
 		how := rapid.SampledFrom([]string{"Reify", "NewUnixFSFile", "unixfs-preload"}).Draw(t, "open")
 		node, err := c01Open(fc.St, fc.Root, how)
 		if err != nil {
